@@ -1,5 +1,275 @@
 import Driver.Common
-/-! Driver for C14 (stub: not built yet). -/
-def main (_args : List String) : IO UInt32 := do
-  IO.eprintln "C14: driver not implemented"
-  return 2
+import CoapVerif.Spec.SeqMap
+import CoapVerif.Model.Cache
+/-!
+Driver for C14.
+
+* `judge`: input `… | <history>` (everything before the last `|` is ignored); the history is a list of tokens
+  `c<t>:<op>` / `r<t>:<result>`.  Output `lin ok` when `Spec.SeqMap.judge` finds a linearization, `lin none` when the
+  complete search finds none, `violates no-crash …` for a panic / deadlock token.
+* `model`: input `prog <kind> pre=… t0=… t1=… post=… || sched <i,…> | <history>`; the schedule is replayed on the step
+  model (`Model/Cache.lean: impl`, which contains `Model/SyncMap.lean`).  Go's map iteration order is an oracle of the
+  model: for `range` it is taken from the visits the implementation reported, for `sweep` all orders of the keys in play
+  are tried.  Output `ok` if some oracle makes the model produce exactly the implementation's history, else `differs …`.
+-/
+namespace Driver.C14
+open CoapVerif CoapVerif.Spec.SeqMap CoapVerif.Model.Cache CoapVerif.Model.SyncSystem
+
+def parseVal (s : String) : Option Val :=
+  match s.splitOn "@" with
+  | [a] => do some ⟨← a.toNat?, 0⟩
+  | [a, b] => do some ⟨← a.toNat?, ← b.toNat?⟩
+  | _ => none
+
+def parseOp (s : String) : Option Op :=
+  match s.splitOn ":" with
+  | ["store", k, v] => do some (.store (← k.toNat?) (← parseVal v))
+  | ["load", k] => do some (.load (← k.toNat?))
+  | ["los", k, v] => do some (.loadOrStore (← k.toNat?) (← parseVal v))
+  | ["replace", k, v] => do some (.replace (← k.toNat?) (← parseVal v))
+  | ["delete", k] => do some (.delete (← k.toNat?))
+  | ["lad", k] => do some (.loadAndDelete (← k.toNat?))
+  | ["ladall"] => some .loadAndDeleteAll
+  | ["copy"] => some .copyData
+  | ["len"] => some .length
+  | ["range"] => some (.range none [])
+  | ["range", n] => do some (.range (some (← n.toNat?)) [])
+  | ["range2"] => some .range2
+  | ["swf", k, v] => do some (.storeWithFunc (← k.toNat?) (← parseVal v))
+  | ["lwf", k, d] => do some (.loadWithFunc (← k.toNat?) (← d.toNat?))
+  | ["loswf", k, d, v] => do some (.loadOrStoreWithFunc (← k.toNat?) (← d.toNat?) (← parseVal v))
+  | ["rwf", k, "inc", d] => do some (.replaceWithFunc (← k.toNat?) (.inc (← d.toNat?)))
+  | ["rwf", k, "del"] => do some (.replaceWithFunc (← k.toNat?) .del)
+  | ["rwf", k, "cas", x, y] => do some (.replaceWithFunc (← k.toNat?) (.cas (← x.toNat?) (← y.toNat?)))
+  | ["dwf", k] => do some (.deleteWithFunc (← k.toNat?))
+  | ["ladwf", k, d] => do some (.loadAndDeleteWithFunc (← k.toNat?) (← d.toNat?))
+  | ["clos", k, v] => do some (.cacheLoadOrStore (← k.toNat?) (← parseVal v))
+  | ["cload", k] => do some (.cacheLoad (← k.toNat?))
+  | ["sweep"] => some (.sweep none)
+  | ["tick", d] => do some (.tick (← d.toNat?))
+  | _ => none
+
+def parseOptVal (s : String) : Option (Option Val) :=
+  if s = "nil" then some none else (parseVal s).map some
+
+def parseBool (s : String) : Option Bool :=
+  if s = "true" then some true else if s = "false" then some false else none
+
+def parseList (s : String) : Option Entries :=
+  -- "[k=v,k=v]"
+  let inner := ((s.drop 1).dropEnd 1).toString
+  if inner = "" then some [] else
+    (inner.splitOn ",").mapM fun e => match e.splitOn "=" with
+      | [k, v] => do some ((← k.toNat?), (← parseVal v))
+      | _ => none
+
+def dropPrefix (s p : String) : Option String :=
+  if s.startsWith p then some (s.drop p.length).toString else none
+
+def parseRes (s : String) : Option Res :=
+  if s = "-" then some .unit
+  else if s.startsWith "x=" then some .unit      -- the sweep's onExpire log is not part of the specification
+  else if let some r := dropPrefix s "n=" then r.toNat?.map .num
+  else if let some r := dropPrefix s "d=" then (parseList r).map .dump
+  else if let some r := dropPrefix s "w=" then (parseList r).map .visits
+  else if let some r := dropPrefix s "v=" then
+    match r.splitOn "/" with
+    | [v] => (parseOptVal v).map .opt
+    | [v, cb] => do
+      let c ← dropPrefix cb "cb="
+      some (.optCb (← parseOptVal v) (← parseOptVal c))
+    | _ => none
+  else if let some r := dropPrefix s "a=" then
+    match r.splitOn "/" with
+    | [v, b] => do some (.stored (← parseVal v) (← parseBool b))
+    | [v, b, cb] => do
+      let c ← dropPrefix cb "cb="
+      some (.storedCb (← parseVal v) (← parseBool b) (← parseOptVal c))
+    | _ => none
+  else none
+
+/-- `c12:op…` / `r12:res…` -/
+def parseTok (s : String) : Option Ev :=
+  let body := (s.drop 1).toString
+  match body.splitOn ":" with
+  | t :: rest =>
+    let payload := ":".intercalate rest
+    if s.startsWith "c" then do some (.call (← t.toNat?) (← parseOp payload))
+    else if s.startsWith "r" then do some (.ret (← t.toNat?) (← parseRes payload))
+    else none
+  | _ => none
+
+def historyPart (line : String) : String := ((line.splitOn " | ").getLast?).getD ""
+
+def judgeLine (line : String) : String :=
+  let toks := words (historyPart line)
+  match toks.find? (fun t => (t.splitOn ":panic").length > 1 || t == "r9:deadlock" || t == "r9:diverged") with
+  | some t => if t == "r9:diverged" then "skip diverged" else s!"violates no-crash {t}"
+  | none =>
+    match toks.mapM parseTok with
+    | none => "bad-op"
+    | some H => if judge H then "lin ok" else "lin none"
+
+/-! ### model replay -/
+
+def fmtVal (v : Val) : String := if v.vu = 0 then toString v.id else s!"{v.id}@{v.vu}"
+def fmtOpt : Option Val → String | none => "nil" | some v => fmtVal v
+def fmtList (l : Entries) : String := "[" ++ ",".intercalate (l.map (fun e => s!"{e.1}={fmtVal e.2}")) ++ "]"
+
+def fmtRes : Res → String
+  | .unit => "-"
+  | .opt v => s!"v={fmtOpt v}"
+  | .optCb v a => s!"v={fmtOpt v}/cb={fmtOpt a}"
+  | .stored v b => s!"a={fmtVal v}/{b}"
+  | .storedCb v b a => s!"a={fmtVal v}/{b}/cb={fmtOpt a}"
+  | .num n => s!"n={n}"
+  | .dump l => s!"d={fmtList l}"
+  | .visits l => s!"w={fmtList l}"
+
+structure Prog where
+  kind : String
+  pre : List String
+  threads : List (List String)
+  post : List String
+
+def splitOps (s : String) : List String := if s = "-" || s = "" then [] else s.splitOn ","
+
+def parseProg (line : String) : Option Prog :=
+  match words line with
+  | "prog" :: kind :: fields => Id.run do
+    let mut p : Prog := ⟨kind, [], [], []⟩
+    for f in fields do
+      match f.splitOn "=" with
+      | k :: rest =>
+        let v := "=".intercalate rest
+        if k == "pre" then p := { p with pre := splitOps v }
+        else if k == "post" then p := { p with post := splitOps v }
+        else if k.startsWith "t" then p := { p with threads := p.threads ++ [splitOps v] }
+      | _ => pure ()
+    return some p
+  | _ => none
+
+/-- one running thread of the replay: textual ops still to run and the local state of the current call -/
+structure RTh where
+  ops : List String
+  cur : Option (String × L) := none      -- (op text, local state)
+
+structure RState where
+  d : MState
+  ths : List RTh
+  out : List String          -- tokens emitted so far (reversed)
+  want : List String         -- the implementation's tokens still to be matched
+
+/-- emit a token; `none` when it contradicts the implementation's history -/
+def emit (r : RState) (tok : String) : Option RState :=
+  match r.want with
+  | w :: ws => if w == tok then some { r with out := tok :: r.out, want := ws } else none
+  | [] => none
+
+/-- the implementation's result token of the call that thread `t` is about to make / is making -/
+def upcomingRet (t : Nat) (want : List String) : Option String :=
+  (want.find? (fun w => w.startsWith s!"r{t}:")).map (fun w => (w.drop (s!"r{t}:".length)).toString)
+
+/-- candidate oracles for an iterating call that starts: `Range` follows the visits the implementation reported; for the
+    sweep the next key is chosen step by step (see `refill`) -/
+def oracles (op : Op) (t : Nat) (r : RState) (keys : List Nat) : List (List Nat) :=
+  match op with
+  | .range _ _ =>
+    match (upcomingRet t r.want).bind (fun s => (dropPrefix s "w=").bind parseList) with
+    | some l => [l.map (·.1)]
+    | none => [[]]
+  | .sweep _ => [] :: keys.map (fun k => [k])
+  | _ => [[]]
+
+/-- a sweep that is about to advance its iterator: every key in play (Go may even produce a key again that was deleted
+    and re-created) or the end of the iteration -/
+def refill (l : L) (keys : List Nat) : List L :=
+  match l with
+  | .sweepIter t acc _ g => (.sweepIter t acc [] g) :: keys.map (fun k => .sweepIter t acc [k] g)
+  | l => [l]
+
+def fmtExpired (l : List Val) : String := "x=[" ++ ",".intercalate (l.map fmtVal) ++ "]"
+
+/-- run one atomic step of thread `t` (index into `ths`, thread id `tid` in tokens); branches over oracles -/
+def stepThread (r : RState) (idx tid : Nat) (keys : List Nat) : List RState :=
+  match r.ths[idx]? with
+  | none => []
+  | some th =>
+    let finish (r : RState) (th' : RTh) := { r with ths := r.ths.set idx th' }
+    let run (r : RState) (txt : String) (l : L) (rest : List String) : List RState :=
+      let (d', o) := step l r.d
+      match o with
+      | .inl l' => [finish { r with d := d' } { ops := rest, cur := some (txt, l') }]
+      | .inr res =>
+        let tok := if txt == "sweep" then s!"r{tid}:{fmtExpired l.expiredSoFar}" else s!"r{tid}:{fmtRes res}"
+        match emit { r with d := d' } tok with
+        | some r' => [finish r' { ops := rest, cur := none }]
+        | none => []
+    match th.cur with
+    | some (txt, l) => (refill l keys).flatMap (fun l' => run r txt l' th.ops)
+    | none =>
+      match th.ops with
+      | [] => []
+      | txt :: rest =>
+        match parseOp txt with
+        | none => []
+        | some op =>
+          match emit r s!"c{tid}:{txt}" with
+          | none => []
+          | some r' => (oracles op tid r' keys).flatMap (fun orc => run r' txt (start ⟨op, orc⟩) rest)
+
+/-- run thread `idx` until its current operation list is exhausted (sequential phases) -/
+partial def runSeq (r : RState) (idx tid : Nat) (keys : List Nat) : List RState :=
+  match r.ths[idx]? with
+  | none => []
+  | some th =>
+    if th.cur.isNone && th.ops.isEmpty then [r]
+    else (stepThread r idx tid keys).flatMap (fun r' => runSeq r' idx tid keys)
+
+def stateKey (r : RState) : String :=
+  toString (repr (r.d, r.ths.map (fun th => (th.ops, th.cur)), r.out.length))
+
+def dedup (rs : List RState) : List RState :=
+  (rs.foldl (fun (acc : List String × List RState) r =>
+    let k := stateKey r
+    if acc.1.contains k then acc else (k :: acc.1, r :: acc.2)) ([], [])).2.reverse
+
+def keysOfProg (p : Prog) : List Nat :=
+  let all := p.pre ++ p.post ++ p.threads.flatten
+  (all.filterMap (fun o => match o.splitOn ":" with | _ :: k :: _ => k.toNat? | _ => none)).eraseDups
+
+def modelLine (line : String) : String :=
+  match line.splitOn " || " with
+  | [pl, rest] =>
+    match parseProg pl, rest.splitOn " | " with
+    | some p, [sl, hist] =>
+      let sched : List Nat := match words sl with
+        | ["sched", s] => if s = "-" then [] else (s.splitOn ",").filterMap (·.toNat?)
+        | _ => []
+      let keys := keysOfProg p
+      let nth := p.threads.length
+      -- thread table: user threads, then index nth = the sequential phase thread (id 9)
+      let r0 : RState := { d := { data := [], now := 0 }, ths := p.threads.map (fun o => { ops := o }) ++ [{ ops := p.pre }], out := [], want := words hist }
+      let afterPre := runSeq r0 nth 9 keys
+      let afterSched := sched.foldl (fun rs t => dedup (rs.flatMap (fun r => stepThread r t t keys))) afterPre
+      let afterPost := afterSched.flatMap (fun r =>
+        runSeq { r with ths := r.ths.set nth { ops := p.post } } nth 9 keys)
+      if afterPost.any (fun r => r.want.isEmpty) then "ok"
+      else
+        -- report how far the best branch got
+        let best := (afterPre ++ afterSched ++ afterPost).foldl (fun b r => if r.out.length > b then r.out.length else b) 0
+        s!"differs after {best} tokens: implementation continues with `{" ".intercalate ((words hist).drop best |>.take 3)}`"
+    | _, _ => "bad-op"
+  | _ => "bad-op"
+
+end Driver.C14
+
+def main (args : List String) : IO UInt32 := do
+  let stdin ← IO.getStdin
+  let stdout ← IO.getStdout
+  match args with
+  | ["model"] => Driver.forLines stdin fun l => stdout.putStrLn (if l.startsWith "#" then "skip" else Driver.C14.modelLine l)
+  | ["judge"] => Driver.forLines stdin fun l => stdout.putStrLn (if l.startsWith "#" then "skip" else Driver.C14.judgeLine l)
+  | _ => IO.eprintln "usage: drv_c14 model|judge"; return 2
+  stdout.flush
+  return 0
